@@ -48,17 +48,17 @@ const (
 )
 
 type R struct {
-	env   *hx.Env
-	key   storetypes.StoreKey
-	names map[string]string // bech32 -> symbolic
-	addrs map[string]sdk.AccAddress
-	rates map[string]string // quote denom -> rate string (to the base denom)
-	base  string
-	den   []string
-	cb    []string
-	nonce int
+	env     *hx.Env
+	key     storetypes.StoreKey
+	names   map[string]string // bech32 -> symbolic
+	addrs   map[string]sdk.AccAddress
+	rates   map[string]string // quote denom -> rate string (to the base denom)
+	base    string
+	den     []string
+	cb      []string
+	nonce   int
 	lastCtx sdk.Context
-	G     GenState
+	G       GenState
 }
 
 func New(env *hx.Env) *R {
